@@ -554,6 +554,21 @@ def many_check(case):
 
 def _loader_check(out, seen, ctx):
     try:
+        # other files lying in the output folder (a backup / uuid-suffixed leftover of an earlier extraction, holding other values): the loader returns what was SAVED
+        decoys = []
+        try:
+            t0 = np.load(os.path.join(out, "waveforms.traces.npy"))
+            for fn, arr in (("waveforms.traces.00aa11bb.npy", np.zeros_like(t0)), ("waveforms.traces.bak.npy", t0[::-1].copy()), ("waveforms.templates.0000.npy", np.zeros((1, 1, 1)))):
+                np.save(os.path.join(out, fn), arr)
+                decoys.append(os.path.join(out, fn))
+            import shutil as _sh
+            for src_, fn in (("waveforms.table.pqt", "waveforms.table.00aa11bb.pqt"), ("waveforms.channels.npz", "waveforms.channels.00aa11bb.npz")):
+                _sh.copy(os.path.join(out, src_), os.path.join(out, fn))
+                decoys.append(os.path.join(out, fn))
+            tb = pd.read_parquet(os.path.join(out, "waveforms.table.pqt"))
+            tb.iloc[::-1].reset_index(drop=True).to_parquet(os.path.join(out, "waveforms.table.00aa11bb.pqt"))
+        except Exception:
+            pass
         wl = wx.WaveformsLoader(out, trough_offset=TROUGH)
         tab = pd.read_parquet(os.path.join(out, "waveforms.table.pqt")).reset_index(drop=True)
         traces = np.load(os.path.join(out, "waveforms.traces.npy"))
@@ -579,6 +594,12 @@ def _loader_check(out, seen, ctx):
                 seen.setdefault("loader:index_within_clusters", "%s: unit %d index_within_clusters %r" % (ctx, u, iw))
     except Exception as e:
         seen.setdefault("loader:exc:%s" % type(e).__name__, "%s: loader raised %s: %s" % (ctx, type(e).__name__, e))
+    finally:
+        for f in locals().get("decoys", []):
+            try:
+                os.unlink(f)
+            except OSError:
+                pass
 
 
 # ------------------------------------------------------------------ conformance: one free-running real joblib run
